@@ -340,6 +340,66 @@ def run(chk):
         return True, "", out
     chk.ob("C19.R4:owned-copies", "owned/shared copies are the bag's structural to_owned/to_shared", owned_conversions)
 
+    def dyn_to_value():
+        """A trait object captured as a value keeps its own mode: `dyn Error` stays an error (source chain), `dyn Debug` debug,
+        `dyn Display` display.  The bag constructor is named after the object's trait."""
+        TABLE = {"Error": "from_dyn_error", "Debug": "from_dyn_debug", "Display": "from_dyn_display"}
+        ev = []
+        for k, b in sorted(P.bodies.items()):
+            if not (b.crate == "emit_core" and b.trait == "emit_core::value::ToValue" and b.method == "to_value"):
+                continue
+            m = re.match(r"^\(?dyn (?:core|std)::(?:error|fmt)::(Error|Debug|Display)\b", b.self_ty or "")
+            if not m:
+                continue
+            cs = [c for c in b.calls(normal_only=True) if "value_bag" in (c.callee.get("path") or "") or "ValueBag" in (c.callee.get("full") or "")]
+            names = [c.callee.get("name") for c in cs]
+            if names != [TABLE[m.group(1)]]:
+                return False, ("`impl ToValue for %s` builds its value with %s, not ValueBag::%s: the object is captured in another mode "
+                               "(an erased error captured as display loses to_borrowed_error() and its source chain)"
+                               % (b.self_ty, names, TABLE[m.group(1)])), [], (cs[0].loc if cs else b.span)
+            ev.append("%s -> %s" % (b.self_ty, names[0]))
+        if len(ev) < 3:
+            raise mir.AnchorMissing("ToValue impls for dyn Error / dyn Debug / dyn Display (found %d)" % len(ev))
+        return True, "", ev
+    chk.ob("C19.R1:dyn-ToValue", "a trait object captured as a value uses the bag constructor of its own trait", dyn_to_value)
+
+    def macro_arg_values():
+        """Every field of a macro's parsed argument struct is the *value* of the argument (Arg::take / take_or_default / take_if_std ...
+        or the literal's value), never a test of whether the argument was written: `inspect: false` must mean false."""
+        n, ev = 0, []
+        for k, b in sorted(P.bodies.items()):
+            if not (b.crate == "emit_macros" and k.endswith("syn::parse::Parse>::parse") and not b.is_closure):
+                continue
+            for bb, j, st in b.statements(normal_only=True):
+                rv = st.get("rv") if st["k"] == "assign" else None
+                if not (rv and rv["k"] == "agg" and re.search(r"Args$", (rv.get("adt") or "").split("<")[0])):
+                    continue
+                for f, op in zip(rv.get("fields") or range(len(rv["ops"])), rv["ops"]):
+                    n += 1
+                    o = b.origin(op)
+                    leaves = [o]
+                    seen = 0
+                    while leaves and seen < 40:
+                        seen += 1
+                        x = leaves.pop()
+                        if x[0] == "phi":
+                            leaves.extend(x[1])
+                            continue
+                        r = mir.o_root(x)
+                        if r[0] == "call" and r[1].callee.get("name") == "branch" and r[1].args:
+                            leaves.append(b.origin(r[1].args[0]))
+                            continue
+                        if r[0] == "call" and r[1].callee.get("name") in ("is_some", "is_none", "is_ok", "is_err", "is_empty"):
+                            return False, ("%s sets `%s` from %s() at %s: the field records whether the argument was written, not its value, so "
+                                           "an explicit `%s: false` turns the option on" % (k, f, r[1].callee.get("name"), r[1].loc, f)), [], r[1].loc
+                        if r[0] == "const" and isinstance(mir.o_const_value(r), bool):
+                            return False, "%s sets `%s` to a constant at %s:%s, ignoring the argument" % (k, f, b.file, st.get("line")), [], "%s:%s" % (b.file, st.get("line"))
+                    ev.append("%s.%s" % (k.split(" as ")[0].lstrip("<"), f))
+        if n < 20:
+            raise mir.AnchorMissing("macro argument struct fields (found %d)" % n)
+        return True, "", ["%d argument fields carry the argument's value" % n] + ev[:6]
+    chk.ob("C19.R2:macro-arg-values", "macro arguments (inspect, flags, ...) take the value written, not the fact that one was written", macro_arg_values)
+
     common.arg_agreement_rule(chk, P, "C19", [("emit", "src/macro_hooks.rs"), ("emit_macros", "src/capture.rs"), ("emit_macros", "src/optional.rs"),
                                                ("emit_macros", "src/hook.rs"), ("emit_core", "src/value.rs")], 3)
     if True:
